@@ -266,6 +266,161 @@ theorem createLoop_hasItem (s s' : Store.Store) (p : CH) (cat : Option Str) (nam
     · exact ⟨_, Or.inr ⟨n, hn, rfl⟩, h1.symm, h2⟩
     · exact ⟨i, Or.inl hi, h1, h2⟩
 
+
+/-- in a state satisfying the store invariant, `cif_container_get_item_loop_internal` answers a loop exactly when a `loop_item` row with
+    that container and key exists (foreign key: the item's loop exists; primary keys: it is the only one), and CIF_NOSUCH_ITEM otherwise -/
+theorem getItemLoopInternal_ok_iff (d : Db) (hinv : Inv d) (cid : Nat) (k : Str) :
+    ((∃ l, getItemLoopInternal d cid k = .ok l) ↔ d.hasItem cid k = true) ∧
+    (d.hasItem cid k = false → getItemLoopInternal d cid k = .error CIF_NOSUCH_ITEM) := by
+  have hmem : ∀ l, l ∈ itemLoopRows d cid k ↔ (l ∈ d.loops ∧ l.cid = cid ∧ ∃ i ∈ d.items, i.cid = cid ∧ i.name = k ∧ i.loopNum = l.loopNum) := by
+    intro l
+    simp only [itemLoopRows, List.mem_filter, Bool.and_eq_true, List.any_eq_true, beq_iff_eq]
+    constructor
+    · rintro ⟨h1, h2, i, hi, ⟨h3, h4⟩, h5⟩; exact ⟨h1, h2, i, hi, h3, h4, h5⟩
+    · rintro ⟨h1, h2, i, hi, h3, h4, h5⟩; exact ⟨h1, h2, i, hi, ⟨h3, h4⟩, h5⟩
+  -- two rows of the join have the same key, hence (primary key of loop) cannot both be in the list
+  have huniq : ∀ a b rest, itemLoopRows d cid k = a :: b :: rest → False := by
+    intro a b rest he
+    have hsub : (itemLoopRows d cid k).Pairwise LoopKeyNe := by
+      unfold itemLoopRows; exact hinv.core.loopPK.sublist List.filter_sublist
+    rw [he, List.pairwise_cons] at hsub
+    have hne := hsub.1 b List.mem_cons_self
+    obtain ⟨_, ha2, i, hi, hi1, hi2, hi3⟩ := (hmem a).1 (by rw [he]; exact List.mem_cons_self)
+    obtain ⟨_, hb2, j, hj, hj1, hj2, hj3⟩ := (hmem b).1 (by rw [he]; exact List.mem_cons_of_mem _ List.mem_cons_self)
+    have hij : i = j := itemKey_unique d.items hinv.core.itemPK i hi j hj (by rw [hi1, hj1]) (by rw [hi2, hj2])
+    subst hij
+    exact hne ⟨by rw [ha2, hb2], by rw [← hi3, ← hj3]⟩
+  constructor
+  · constructor
+    · rintro ⟨l, hl⟩
+      unfold getItemLoopInternal at hl
+      cases hr : itemLoopRows d cid k with
+      | nil => simp [hr] at hl
+      | cons a rest =>
+        obtain ⟨_, _, i, hi, hi1, hi2, _⟩ := (hmem a).1 (by rw [hr]; exact List.mem_cons_self)
+        exact (hasItem_iff d cid k).2 ⟨i, hi, hi1, hi2⟩
+    · intro hh
+      obtain ⟨i, hi, hi1, hi2⟩ := (hasItem_iff d cid k).1 hh
+      obtain ⟨l, hl, hl1, hl2⟩ := (hasLoop_iff d i.cid i.loopNum).1 (hinv.core.itemFK i hi)
+      have hin : l ∈ itemLoopRows d cid k := (hmem l).2 ⟨hl, by rw [hl1, hi1], i, hi, hi1, hi2, hl2.symm⟩
+      unfold getItemLoopInternal
+      cases hr : itemLoopRows d cid k with
+      | nil => rw [hr] at hin; cases hin
+      | cons a rest =>
+        cases rest with
+        | nil => exact ⟨_, rfl⟩
+        | cons b rest' => exact absurd hr (fun e => huniq a b rest' e)
+  · intro hh
+    unfold getItemLoopInternal
+    cases hr : itemLoopRows d cid k with
+    | nil => rfl
+    | cons a rest =>
+      obtain ⟨_, _, i, hi, hi1, hi2, _⟩ := (hmem a).1 (by rw [hr]; exact List.mem_cons_self)
+      have := (hasItem_iff d cid k).2 ⟨i, hi, hi1, hi2⟩
+      rw [hh] at this; cases this
+
+/-- the error code of a BEGIN_NESTTX … body … ROLLBACK_NESTTX call is the body's -/
+theorem nest_error_iff {α} (s : Store.Store) (body : Db → Except Code (Db × α)) (c : Code) :
+    (s.nest body).2 = .error c ↔ body s.db = .error c := by
+  unfold Store.nest
+  have hdb : s.beginNest.1.db = s.db := by unfold Store.beginNest; split <;> rfl
+  rw [← hdb]
+  cases hb : body s.beginNest.1.db with
+  | error c' => simp [hb]
+  | ok r => obtain ⟨d2, a⟩ := r; simp [hb]
+
+/-- cif_loop_add_item through a live loop handle: refused as CIF_DUP_ITEMNAME exactly when the container already has an item of that key -/
+theorem addItem_dup_iff (s : Store.Store) (l : LH) (n : Store.Name) (v : Option V) (hv : n.valid = true)
+    (hl : s.db.hasLoop l.cid l.loopNum = true) :
+    (addItem s l (some n) v).2 = .error CIF_DUP_ITEMNAME ↔ s.db.hasItem l.cid n.key = true := by
+  unfold addItem
+  simp only [hv, Bool.not_true, Bool.false_eq_true, if_false]
+  have key : (addItemInternal s l n.key n.orig (v.getD .unk)).2 = .error CIF_DUP_ITEMNAME ↔ s.db.hasItem l.cid n.key = true := by
+    unfold addItemInternal
+    rw [nest_error_iff]
+    unfold addItemBody Db.insertItem
+    cases hh : s.db.hasItem l.cid n.key <;> simp [hl]
+  rw [← key]
+  cases addItemInternal s l n.key n.orig (v.getD .unk) with
+  | mk s1 r => cases r <;> simp
+
+/-- `addItems` fails (always with CIF_DUP_ITEMNAME) as soon as one of the names is already an item of the container -/
+theorem addItems_dup (cid ln : Nat) : ∀ (ns : List Store.Name) (d : Db), (∃ n ∈ ns, d.hasItem cid n.key = true) →
+    addItems d cid ln ns = .error CIF_DUP_ITEMNAME
+  | [], _, h => by obtain ⟨n, hn, _⟩ := h; cases hn
+  | n :: ns, d, h => by
+    unfold addItems
+    cases hi : d.insertItem cid n.key n.orig ln with
+    | none => rfl
+    | some d1 =>
+      simp only
+      apply addItems_dup cid ln ns d1
+      obtain ⟨m, hm, hmk⟩ := h
+      have hd1 : d1 = { d with items := d.items ++ [{ cid := cid, name := n.key, nameOrig := n.orig, loopNum := ln }] } ∧ d.hasItem cid n.key = false := by
+        unfold Db.insertItem at hi
+        split at hi; · cases hi
+        rename_i hfresh
+        split at hi; · cases hi
+        cases hi
+        exact ⟨rfl, by simpa using hfresh⟩
+      rcases List.mem_cons.mp hm with rfl | hm'
+      · rw [hd1.2] at hmk; cases hmk
+      · refine ⟨m, hm', ?_⟩
+        obtain ⟨i, hi', h1, h2⟩ := (hasItem_iff d _ _).mp hmk
+        rw [hd1.1]
+        exact (hasItem_iff _ _ _).mpr ⟨i, List.mem_append_left _ hi', h1, h2⟩
+
+/-- cif_container_create_loop whose CREATE_LOOP_SQL step succeeds: a name that is already an item of the container makes the call fail
+    with CIF_DUP_ITEMNAME -/
+theorem createLoop_dup (s : Store.Store) (p : CH) (cat : Option Str) (names : List Store.Name) (d1 : Db)
+    (hval : ∀ n ∈ names, n.valid = true) (hins : s.db.insertLoopUnnumbered p.id cat = .ok d1)
+    (hdup : ∃ n ∈ names, s.db.hasItem p.id n.key = true) :
+    (createLoop s p cat names).2 = .error CIF_DUP_ITEMNAME := by
+  have hne : names.isEmpty = false := by
+    obtain ⟨n, hn, _⟩ := hdup; cases names with | nil => cases hn | cons _ _ => rfl
+  have hany : names.any (fun n => !n.valid) = false := by
+    rw [Bool.eq_false_iff]; intro h
+    obtain ⟨n, hn, hb⟩ := List.any_eq_true.mp h
+    rw [hval n hn] at hb; cases hb
+  unfold createLoop createLoopInternal
+  simp only [hne, hany, Bool.false_eq_true, if_false]
+  rw [nest_error_iff]
+  unfold createLoopBody
+  simp only [hins]
+  obtain ⟨c, _, _, _, _, i0, _⟩ := insertLoop_spec s.db d1 p.id cat hins
+  have : ∃ n ∈ names, d1.hasItem p.id n.key = true := by
+    obtain ⟨n, hn, hk⟩ := hdup
+    exact ⟨n, hn, by simpa [Db.hasItem, i0] using hk⟩
+  rw [addItems_dup p.id _ names d1 this]
+
+/-- the `loop_item` rows after a successful cif_container_create_loop with names built by `apiName`: a row (c, `cifNormalize U b`) exists
+    iff `c` is that container and `b` has the normal form of one of the names, or it existed before; `ItemsNormOK` is preserved -/
+theorem createLoop_items_match (U : UnicodeOps) (s s' : Store.Store) (p : CH) (cat : Option Str) (xs : List Str) (l : LH) (b : Str) (c : Nat)
+    (hn : ItemsNormOK (cifNormalize U) s.db)
+    (hc : createLoop s p cat (xs.map (apiName U true)) = (s', .ok l)) :
+    ItemsNormOK (cifNormalize U) s'.db ∧
+    (s'.db.hasItem c (cifNormalize U b) = true ↔
+      ((c = p.id ∧ ∃ a ∈ xs, cifNormalize U a = cifNormalize U b) ∨ s.db.hasItem c (cifNormalize U b) = true)) := by
+  obtain ⟨hrows, _, _, _⟩ := createLoop_rows s s' p cat _ l hc
+  constructor
+  · intro i hi
+    rw [hrows] at hi
+    rcases List.mem_append.mp hi with h1 | h1
+    · exact hn i h1
+    · simp only [List.map_map, List.mem_map, Function.comp] at h1
+      obtain ⟨x, _, rfl⟩ := h1
+      rfl
+  · rw [createLoop_hasItem s s' p cat _ l hc c (cifNormalize U b)]
+    constructor
+    · rintro (⟨h1, n, hn', h2⟩ | h)
+      · obtain ⟨x, hx, rfl⟩ := List.mem_map.mp hn'
+        exact Or.inl ⟨h1, x, hx, h2⟩
+      · exact Or.inr h
+    · rintro (⟨h1, x, hx, h2⟩ | h)
+      · exact Or.inl ⟨h1, apiName U true x, List.mem_map.mpr ⟨x, hx, rfl⟩, h2⟩
+      · exact Or.inr h
+
+
 /-! ### tables and packets -/
 open CifModel.Model.Value in
 theorem tableSet_stored (U : UnicodeOps) (es : List Value.Entry) (key : Str) (x : Option V) :
